@@ -715,6 +715,7 @@ inline int main_impl (int argc, char** argv, const char* property)
         if (!o.only.empty () && std::find (o.only.begin (), o.only.end (), sc.name) == o.only.end ()) continue;
         if (o.san_binary && !sc.san) continue;
         uint64_t N = thorough ? sc.thorough_n : sc.quick_n;
+        if (N == 0) continue; // not part of this tier
         if (!sc.exhaustive)
         {
             N = (uint64_t) ((double) N * o.scale);
@@ -866,9 +867,16 @@ inline int main_impl (int argc, char** argv, const char* property)
         std::vector<std::string> samples;
         {
             Ctx c;
-            for (size_t k = 0; k < M.sample_idx.size () && samples.size () < 3; ++k)
+            std::vector<uint64_t> pickidx;
+            if (!M.sample_idx.empty ())
             {
-                uint64_t i = M.sample_idx[k];
+                size_t n = M.sample_idx.size ();
+                for (size_t pos : { (size_t) 0, n / 2, n - 1 })
+                    if (std::find (pickidx.begin (), pickidx.end (), M.sample_idx[pos]) == pickidx.end ()) pickidx.push_back (M.sample_idx[pos]);
+            }
+            for (size_t k = 0; k < pickidx.size () && samples.size () < 3; ++k)
+            {
+                uint64_t i = pickidx[k];
                 c.reset ();
                 c.describe = true;
                 if (sc.exhaustive)
@@ -1020,7 +1028,6 @@ inline int main_impl (int argc, char** argv, const char* property)
 // VP_RANDOM(name, quick_cases, thorough_cases, "rule") { body using Ctx& c }
 #define VP_RANDOM(name, qn, tn, rule)                                          \
     static void           VP_CAT (vp_fn_, name) (vp::Ctx & c);                 \
-    static vp::LabelSet   VP_CAT (vp_ls_, name);                               \
     static vp::Registrar  VP_CAT (vp_reg_, name) (#name, VP_CAT (vp_fn_, name), (qn), (tn), rule); \
     static void           VP_CAT (vp_fn_, name) (vp::Ctx & c)
 
